@@ -59,7 +59,7 @@ def dlist(vals):
 NSUM = "(mknsum 0 2 2 3 %s false (mknew [] 0 0 0 None))"
 
 
-def gen_rows(ctx):
+def gen_rows(ctx, info):
     rng = ctx.rng
     thorough = ctx.tier == "thorough"
     rows = []
@@ -102,6 +102,15 @@ def gen_rows(ctx):
         rows.append(Row("set_fv", 0, [fvalid, 1, 0, 0, 0],
                         "crun (env_set_fv HOk %s None false) gen_contract_vnacal_new_set_frequency_vector" % (NSUM % b(fvalid)),
                         "vnacal_new_set_frequency_vector(NULL)"))
+    # a vector parameter with the range 1000..3000 MHz is in use by a standard: _vnacal_new_check_all_frequency_ranges decides
+    # (atom:parameter_ranges_bad; the frequencies keep 5 MHz distance from (1 +- 1/100) x end of the parameter's range)
+    for fv in [(1000, 2000, 3000), (995, 2000, 3005), (500, 2000, 3000), (1000, 2000, 4000), (100, 200, 300), (1500, 2000, 2500),
+               (980, 2000, 3000), (1000, 2000, 3040), (3000, 2000, 1000), (-999999, 2000, 3000), (1200, 1200, 3000)]:
+        bad = fv[0] != -999999 and (1000 > fv[0] * 1.01 or 3000 < fv[2] * 0.99)
+        rows.append(Row("set_fv", 0, [2, 0] + list(fv),
+                        "crun (env_set_fv HOk %s (Some %s) %s) gen_contract_vnacal_new_set_frequency_vector"
+                        % (NSUM % "false", dlist(fv), b(bad)),
+                        "vnacal_new_set_frequency_vector(%s) with a vector parameter 1000..3000 MHz in use" % (fv,)))
     for h in (1, 2):
         rows.append(Row("set_fv", h, [1, 0, 1000, 2000, 3000],
                         "crun (env_set_fv %s %s (Some %s) false) gen_contract_vnacal_new_set_frequency_vector"
@@ -132,6 +141,23 @@ def gen_rows(ctx):
         rows.append(Row("set_m_error", 0, [fvalid, n, fvg[0], fvg[1], fvg[2], nfg[0], nfg[1], nfg[2], trg[0], trg[1], trg[2]], model,
                         "vnacal_new_set_m_error(frequencies=%d, frequency_vector=%s MHz, sigma_nf=%s/1000, sigma_tr=%s/1000), frequency "
                         "vector %s" % (n, fvl, nfl, trl, "set" if fvalid else "not set")))
+    # T16 2x2 with a frequency vector and one standard: a single reflect leaves S cells unspecified (atom:s_matrix_incomplete_16,
+    # state 2), a double reflect does not (state 3)
+    def ol2(l, den):
+        return "None" if l is None else "(Some [" + "; ".join("(Some ((%d) # %d))" % (v, den) for v in l) + "])"
+    for st, s16 in ((2, True), (3, False)):
+        for n, fvl, nfl, trl in ((1, None, [5], None), (1, None, [5], [1]), (2, [900, 3100], [5, 7], None), (2, [3100, 900], [5, 7], None),
+                                 (2, [1500, 3100], [5, 7], None), (1, None, [0], None), (3, None, [5, 7, 7], None), (2, None, [5, 7], None),
+                                 (1, None, None, None), (0, None, [5], None), (1, None, None, [1])):
+            narrow = bool(fvl) and (fvl[0] > 1010 or fvl[-1] < 2970)
+            model = ("crun (env_set_m_error HOk (mknsum 4 2 2 3 true false (mknew [] 0 0 0 None)) (mkmerr %s %s %s %s %s %s)) "
+                     "gen_contract_vnacal_new_set_m_error" % (z(n), ol2(fvl, 1), ol2(nfl, 1000), ol2(trl, 1000), b(narrow), b(s16)))
+            fa = [1] + fvl if fvl else [0, 0, 0]
+            na = [1] + (nfl + [nfl[-1]])[:2] if nfl else [0, 0, 0]
+            ta = [1] + (trl + [trl[-1]])[:2] if trl else [0, 0, 0]
+            rows.append(Row("set_m_error", 0, [st, n] + fa + na + ta, model,
+                            "vnacal_new_set_m_error(frequencies=%d, frequency_vector=%s MHz, sigma_nf=%s/1000, sigma_tr=%s/1000) on a T16 "
+                            "2x2 with a %s standard" % (n, fvl, nfl, trl, "single reflect" if s16 else "double reflect")))
     for h in (1, 2):
         rows.append(Row("set_m_error", h, [1, 1, 0, 0, 0, 1, 5, 5, 0, 0, 0],
                         "crun (env_set_m_error %s %s (mkmerr 1 None (Some [Some (5 # 1000)]) None false false)) "
@@ -148,19 +174,32 @@ def gen_rows(ctx):
                             "vnacal_add_calibration, vnp %s" % ["solved", "not solved", "NULL", "of another vnacal_t", "wrong magic"][mode]))
     for which, fn in enumerate(("vnacal_set_fprecision", "vnacal_set_dprecision")):
         for p in (-1, 0, 1, 2, 6, 999, 1000, 1001, 100000):
-            rows.append(Row("precision", 0, [which, p], "crun (env_precision %s) gen_contract_%s" % (z(p), fn), "%s(%d)" % (fn, p)))
+            rows.append(Row("precision", 0, [which, p], "crun (env_precision HOk %s) gen_contract_%s" % (z(p), fn), "%s(%d)" % (fn, p)))
+        steps = dict((f, st) for f, _, st in info["contracts"]).get(fn)
+        if steps and steps[0].startswith("SDirect"):
+            # the function tests its vnacal_t pointer (fix DC91): NULL / wrong magic number must be refused
+            for h in (1, 2):
+                for p in (0, 6):
+                    rows.append(Row("precision", h, [which, p], "crun (env_precision %s %s) gen_contract_%s" % (HND[h], z(p), fn),
+                                    "%s(%d)" % (fn, p)))
+        else:
+            cat.SKIPPED.append(("contract rows %s [handle=NULL / wrong magic]" % fn,
+                                "the C function has no test of its vnacal_t pointer (dereferenced in _vnacal_error and by the store): "
+                                "outside the property's valid object pointers; repair offered as fixes/DC91_precision_handle_test.diff"))
     # ---- the calibration table: getters, property calls, apply
-    tables = [(0, 0), (1, 0), (1, 1), (2, 1), (2, 2), (3, 0), (3, 2), (3, 5)]
-    for (ncal, holes) in tables:
+    # ncal >= 10: ncal % 10 calibrations and one more WITHOUT frequency points (get_fmin / get_fmax, the range tests of apply)
+    tables = [(0, 0), (1, 0), (1, 1), (2, 1), (2, 2), (3, 0), (3, 2), (3, 5), (10, 0), (11, 0), (12, 1)]
+    for (ncode, holes) in tables:
+        ncal = ncode % 10 + (1 if ncode >= 10 else 0)
         al = 0 if ncal == 0 else 1 if ncal == 1 else 8
         cis = sorted(set([-2, -1, 0, ncal - 1, ncal, al - 1, al, al + 1, 1000]))
         for g, name in enumerate(GETTERS):
             for ci in (cis if thorough or g in (0, 2, 5, 6, 8) else cis[::2]):
-                rows.append(Row("get", 0, [g, ncal, holes, ci], ("get", g, ci, "HOk"), "vnacal_get_%s(ci=%d), %d slots, deleted mask %d"
+                rows.append(Row("get", 0, [g, ncode, holes, ci], ("get", g, ci, "HOk"), "vnacal_get_%s(ci=%d), %d slots, deleted mask %d"
                                 % (name, ci, al, holes)))
         for p, name in enumerate(PROPS):
             for ci in (cis if thorough or p in (3, 4, 7) else cis[1::2]):
-                rows.append(Row("prop", 0, [p, ncal, holes, ci], ("prop", p, ci, "HOk"), "vnacal_property_%s(ci=%d), %d slots, deleted "
+                rows.append(Row("prop", 0, [p, ncode, holes, ci], ("prop", p, ci, "HOk"), "vnacal_property_%s(ci=%d), %d slots, deleted "
                                 "mask %d" % (name, ci, al, holes)))
     for h in (1, 2):
         for g in range(9):
@@ -176,7 +215,7 @@ def gen_rows(ctx):
                            "m" if variant == 0 else "b", br, bc, " NULL" if bnull else "", " with a NULL cell" if bcell else "",
                            (", a %dx%d%s" % (ar, ac, " with a NULL cell" if acell else "")) if ag and variant else "",
                            ", s_parameters=NULL" if outnull else "")))
-    for (ncal, holes) in ((2, 0), (3, 2), (1, 1), (0, 0)):
+    for (ncal, holes) in ((2, 0), (3, 2), (1, 1), (0, 0), (10, 0), (11, 0)):
         for ci in (-1, 0, 1, 2, 8, 9):
             for variant in (0, 1):
                 for dim in (1, 2):
@@ -215,14 +254,14 @@ def doc_term(row, res):
     if row.func == "new_alloc":
         return "lift (check_new_alloc %s %s %s %s)" % (z(a[0]), z(a[1]), z(a[2]), z(a[3]))
     if row.func == "set_dbl":
-        return "lift (%s %s)" % ("check_set_pvalue" if a[0] == 0 else "check_set_tolerance", q(a[1], a[2]))
+        return "lift (%s true %s)" % ("check_set_pvalue_with" if a[0] == 0 else "check_set_tolerance_with", q(a[1], a[2]))
     if row.func == "set_iter":
         return "lift (check_set_iteration %s)" % z(a[0])
     if row.func == "set_z0":
         return "CPass"
     if row.func == "set_fv":
-        m = re.search(r"env_set_fv HOk (\(mknsum.*?\)\)) (None|\(Some \[.*?\]\)) false\)", row.model)
-        return "lift (check_set_fv %s %s false)" % (m.group(1), m.group(2))
+        m = re.search(r"env_set_fv HOk (\(mknsum.*?\)\)) (None|\(Some \[.*?\]\)) (true|false)\)", row.model)
+        return "lift (check_set_fv %s %s %s)" % (m.group(1), m.group(2), m.group(3))
     if row.func == "set_m_error":
         m = re.search(r"env_set_m_error HOk (\(mknsum.*?\)\)) (\(mkmerr .*\))\) gen_contract", row.model)
         return ("match set_m_error_decision %s %s with MRefuse => %s | MExitD => CExitOk | MPassD => CPass end"
@@ -308,7 +347,7 @@ def compare(row, code, r):
                         "errno=%s callbacks=%d msg=%s" % (r["ret"], r["errno"], cb, r.get("msg"))))
         if not failed and cb != 0:
             out.append(("callback-on-success", "call reported success but invoked the error function %d time(s)" % cb))
-        if failed and cb != 1 and not arg_refusal:
+        if failed and cb != 1 and not arg_refusal and row.func not in ("get", "prop"):
             out.append(("callbacks", "a failure in the work of the call was reported %d time(s)" % cb))
         return out
     fv = FVC[code % 10]
@@ -335,7 +374,61 @@ def compare(row, code, r):
     return out
 
 
+def add_common_model_rows(ctx, broken):
+    """_vnacal_new_add_common: the contract generated from the C text in the hand-written environment env_add against the
+    hand-written decision function check_add of NewModel.v (which the extracted-driver tie compares with the library) on
+    generated argument tuples - every calibration type, near-valid tuples with one field perturbed and random ones, cells
+    naming valid / invalid parameters, error model set / not set for T16 / U16.  (The equality is proved only in this
+    tested form: see docs/design_C11.md.)"""
+    shapes = [(t, r, c) for t in range(0, 8) for (r, c) in ((1, 1), (2, 2), (3, 3), (2, 1), (1, 2), (2, 3), (3, 2))
+              if (r <= c if t in (0, 2, 4) else r >= c)]
+    tuples = cat.gen_add_tuples(ctx, shapes, 12 if ctx.tier != "thorough" else 60)
+    terms = []
+    for (t, r, c), a in tuples:
+        for merror in ((0, 1) if t in (4, 5) else (0,)):
+            cells = "[" + "; ".join("ChEnd %s true false 0%%Q None" % z(h) if h in (0, 1, 2, cat.H_SCALAR, cat.H_UNKNOWN) else "ChNone %s" % z(h)
+                                    for h in a["cells"]) + "]"
+            mp = "None" if a["mapm"] is None else "(Some [" + "; ".join(z(x) for x in a["mapm"]) + "])"
+            ao = "(Some (%s, %s))" % (z(a["ar"]), z(a["ac"])) if (a["ar"] or a["ac"]) else "None"
+            inc = 1 if (a["mapm"] is not None and len(set(a["mapm"])) < max(r, c)) else 0
+            terms.append("(mknsum %d %d %d 3 true %s (mknew [] 0 0 0 None), mkadd %s %s %s %s %s %s %s %s %s %s)"
+                         % (t, r, c, b(merror), b(a["b_null"]), ao, z(a["br"]), z(a["bc"]), z(a["sr"]), z(a["sc"]), mp, cells,
+                            b(a["asing"]), b(inc)))
+    body = (PRELUDE + "Definition same (p : nsum * addargs) : bool := Z.eqb (code (crun (env_add (fst p) (snd p)) "
+            "gen_contract_vnacal_new_add_common)) (code (lift (check_add (fst p) (snd p)))).\n"
+            "Definition rows : list (nsum * addargs) := [" + ";\n".join(terms) + "].\n"
+            "Eval vm_compute in (map (fun p => code (crun (env_add (fst p) (snd p)) gen_contract_vnacal_new_add_common)) rows, "
+            "map (fun p => code (lift (check_add (fst p) (snd p)))) rows).\n")
+    rc, out, err = ctx.coq_eval("add_common_rows", body, timeout=900)
+    m = re.search(r"=\s*\(\[(.*?)\],\s*\[(.*?)\]\)", out, flags=re.S)
+    if rc != 0 or not m:
+        broken["tie:add_common-model"] = "coqc could not evaluate the add_common rows: %s" % (err[-400:] or out[-400:])
+        ctx.obligation("tie:add_common-contract-vs-check_add", False, "not evaluated")
+        return
+    ca = [int(x) for x in re.findall(r"-?\d+", m.group(1))]
+    cb = [int(x) for x in re.findall(r"-?\d+", m.group(2))]
+    diff = [i for i in range(len(terms)) if i >= len(ca) or i >= len(cb) or ca[i] != cb[i]]
+    for i in range(len(terms)):
+        ctx.count(("add_common", ca[i]) if i < len(ca) and ca[i] else None)
+    ctx.traces_validated += len(terms)
+    ctx.extra["add_common_model_rows"] = len(terms)
+    ctx.extra["add_common_outcomes"] = sorted(set(ca))
+    ctx.obligation("tie:add_common-contract-vs-check_add", not diff and len(ca) == len(terms),
+                   "; ".join("%s: contract %s, check_add %s" % (terms[i][:200], ca[i] if i < len(ca) else "?", cb[i] if i < len(cb) else "?")
+                             for i in diff[:2]))
+    if diff:
+        broken["tie:add_common-contract-vs-check_add"] = ("the contract of _vnacal_new_add_common read from the C text and NewModel.check_add "
+                                                          "disagree on %d of %d generated tuples, first: %s" % (len(diff), len(terms), terms[diff[0]][:300]))
+
+
 def run_tie(ctx, broken, info):
+    """info = None: the translator refused the C text (coq/Gen/ContractGen.v is stale): only the documented decisions are
+    compared with the library - the search for a failing input behind the broken obligation T3:contracts."""
+    doc_only = info is None
+    if doc_only:
+        info = {"contracts": []}
+    else:
+        add_common_model_rows(ctx, broken)
     try:
         exe = ctx.build_harness("err_contract", san=True)
     except vplib.BuildError as e:
@@ -343,12 +436,12 @@ def run_tie(ctx, broken, info):
         ctx.obligation("tie:contracts", False, "harness does not build")
         return
     runner = cat.Runner(ctx, exe, ctx.run_env(leak=False))
-    rows = gen_rows(ctx)
+    rows = gen_rows(ctx, info)
     res = runner.run(rows)
     terms = []
     for row in rows:
         r = res.get(row.id, {"crash": {"kind": "fault", "error": "no result", "function": None}})
-        terms.append(model_term(row, r if "crash" not in r else {}))
+        terms.append(doc_term(row, r if "crash" not in r else {}) if doc_only else model_term(row, r if "crash" not in r else {}))
     for row in rows:
         r = res.get(row.id, {"crash": {"kind": "fault", "error": "no result", "function": None}})
         terms.append(doc_term(row, r if "crash" not in r else {}))
@@ -377,11 +470,22 @@ def run_tie(ctx, broken, info):
     ctx.obligation("tie:contracts-documented", not docbad,
                    "; ".join("%s: %s" % (b_[0].text, b_[4][0][1]) for b_ in docbad[:3])[:600])
     seen = set()
+    downstream = None
     for row, dcode, code, r, probs in docbad:
-        key = (row.func, probs[0][0], row.h)
+        key = (row.text.split("(")[0].split(",")[0], probs[0][0], row.h)
         if key in seen:
             continue
         seen.add(key)
+        extra = {}
+        if row.func == "set_dbl" and row.args[2] == 0 and probs[0][0] == "accepted-invalid":
+            # what the accepted NaN does later: vnacal_new_solve of a system with an unknown parameter and an error model
+            if downstream is None:
+                drows = [Row("nan_down", 0, [k], "", lab) for k, lab in ((3, "no NaN (base line)"), (0, "p-value limit NaN"),
+                                                                        (1, "p tolerance NaN"), (2, "et tolerance NaN"))]
+                dres = runner.run(drows)
+                downstream = dict((d.text, "vnacal_new_solve: ret=%s errno=%s msg=%s" % (dres[d.id].get("ret"), dres[d.id].get("errno"),
+                                                                                        dres[d.id].get("msg"))) for d in drows)
+            extra = {"downstream": downstream, "repair": "fixes/DC90_setters_refuse_nan.diff"}
         ctx.violation({"kind": "contract_documented", "function": row.text.split("(")[0].split(",")[0], "problem": probs[0][0]},
                       "%s [handle %s]: %s" % (row.text, HND[row.h],
                                               "; ".join(p[1].replace("the contract read from the C text", "the documented contract")
@@ -392,7 +496,7 @@ def run_tie(ctx, broken, info):
                               "equate the generated contract with",
                        "harness_line": row.line(), "documented_term": doc_term(row, r if "crash" not in r else {}),
                        "documented_code": dcode, "generated_contract_code": code, "library": r.get("raw", r.get("stderr", ""))[:800],
-                       "problems": [p[1] for p in probs]})
+                       "problems": [p[1] for p in probs], **extra})
     fired = {}
     for row, code in zip(rows, codes):
         r = res.get(row.id, {"crash": {"kind": "fault", "error": "no result", "function": None}})
@@ -403,7 +507,9 @@ def run_tie(ctx, broken, info):
         probs = compare(row, code, r)
         if probs:
             bad.append((row, code, r, probs))
-    ctx.obligation("tie:contracts", not bad, "; ".join("%s: %s" % (b_[0].text, b_[3][0][1]) for b_ in bad[:3])[:600])
+    if doc_only:
+        bad = []
+    ctx.obligation("tie:contracts", not bad and not doc_only, "not run: translator failed" if doc_only else "; ".join("%s: %s" % (b_[0].text, b_[3][0][1]) for b_ in bad[:3])[:600])
     ctx.extra["contract_tie_rows"] = len(rows)
     ctx.extra["contract_tie_outcomes"] = dict((k, sorted(v)) for k, v in sorted(fired.items()))
     for row in rows[:3] + [x[0] for x in bad[:2]]:
